@@ -325,3 +325,41 @@ Proof.
   - replace (1 + (1 + (1 + (1 + 0)))) with 4 in * by lia. eapply op_exchange4; eassumption.
   - pose proof (len_nonneg T). lia.
 Qed.
+
+(* a "for step() {}" loop that consumed the rest of T, started at offset k of T ++ [0] *)
+Lemma repl_exchange_all f R' T k : local_to R' f -> f R' = Ok 0 -> nonneg f -> R' <> [] ->
+  no_trunc T = true -> 0 <= k <= len T ->
+  repl f (skipz k (T ++ [0])) = Ok (len T - k) ->
+  repl f (skipz k (T ++ R')) = Ok (len T - k).
+Proof.
+  intros Hl Hs Hn HR' HT Hk H. unfold repl in *. rewrite skipz_app_le in * by lia.
+  replace (len T - k) with (len (skipz k T)) in * by (rewrite len_skipz by lia; reflexivity).
+  apply (rep_exchange_all f R' Hl Hs Hn _ _ [0] (no_trunc_skipz' k T HT ltac:(lia)) ltac:(discriminate) H).
+  rewrite app_length. pose proof (nonempty_len R' HR'). unfold len in *. lia.
+Qed.
+
+Lemma op_ty_range l n ty : op l = Ok (n, ty) -> ty = ErrorToken \/ 512 < ty < 2048.
+Proof.
+  intros H. unfold op in H. crunch H; injection H as _ <-;
+    unfold lookup_op, js_op_eq_tokens, js_op_op_eq_tokens, js_op_op_tokens, js_op_tokens;
+    repeat match goal with |- context [if ?c then _ else _] => destruct c end;
+    first [left; reflexivity | right; split; reflexivity].
+Qed.
+
+(* an operator token followed by a byte that cannot extend it is not the start of an HTML-like comment *)
+Lemma html_decline2 plt T c R'' ty : op (T ++ [0]) = Ok (len T, ty) -> op_stop c ->
+  html_comment plt (T ++ c :: R'') = Ok 0.
+Proof.
+  intros H Hs. unfold op_stop in Hs. pose proof (op_len _ _ _ H) as Hl.
+  destruct T as [|t0 [|t1 [|t2 [|t3 [|t4 T]]]]]; cbn [app] in *; rewrite ?len_cons in *;
+    change (len (@nil Z)) with 0 in *; try lia; try (pose proof (len_nonneg T); lia);
+    unfold op in H; rewrite ?pkl_cons_0, ?pkl_1, ?pkl_2, ?pkl_3 in H; cbn [rbind] in H.
+  - crunch H; try (exfalso; match type of H with Ok (?a, _) = Ok (?b, _) => assert (a = b) by congruence; lia end);
+      unfold html_comment; rewrite ?pkl_cons_0, ?pkl_1; cbn [rbind]; repeat (pick; cbn [rbind]); reflexivity.
+  - crunch H; try (exfalso; match type of H with Ok (?a, _) = Ok (?b, _) => assert (a = b) by congruence; lia end);
+      unfold html_comment; rewrite ?pkl_cons_0, ?pkl_1, ?pkl_2; cbn [rbind]; repeat (pick; cbn [rbind]); reflexivity.
+  - crunch H; try (exfalso; match type of H with Ok (?a, _) = Ok (?b, _) => assert (a = b) by congruence; lia end);
+      unfold html_comment; rewrite ?pkl_cons_0, ?pkl_1, ?pkl_2, ?pkl_3; cbn [rbind]; repeat (pick; cbn [rbind]); reflexivity.
+  - crunch H; try (exfalso; match type of H with Ok (?a, _) = Ok (?b, _) => assert (a = b) by congruence; lia end);
+      unfold html_comment; rewrite ?pkl_cons_0, ?pkl_1, ?pkl_2, ?pkl_3; cbn [rbind]; repeat (pick; cbn [rbind]); reflexivity.
+Qed.
